@@ -36,7 +36,20 @@ def install_reach(root):
     return reached
 
 
+def die_with_parent():
+    '''a worker must not outlive its runner (PR_SET_PDEATHSIG = 1)'''
+    try:
+        import ctypes
+        import signal
+        ctypes.CDLL(None, use_errno=True).prctl(1, int(signal.SIGKILL), 0, 0, 0)
+        if os.getppid() == 1:
+            os._exit(3)
+    except Exception:
+        pass
+
+
 def main():
+    die_with_parent()
     args = json.loads(sys.argv[1])
     here = os.path.dirname(os.path.dirname(os.path.abspath(__file__)))
     deps = os.path.join(here, '.deps')
